@@ -9,13 +9,18 @@ import shapely
 
 from harness import util
 from harness.gen import c06_extra as X
+from harness.gen import c06_extra6 as X6
 from harness.gen import datasets as G
 from harness.gen import geomspec as S
 
 ID = 'C06'
 MODULE = 'EmsModel.Props.C06'
 DRIVER = 'C06'
+# further theorem files of this property (built and axiom-audited like MODULE); append to the list
+EXTRA_MODULES = ['EmsModel.Props.C06Opens']
+EXTRA_MODULES += ['EmsModel.Props.C06Src']   # UGrid._make_polygons as the source has it (harness/trans_ugridsrc.py -> Gen.UgridSrc.ugridPolygons)
 REQUIRED = [
+    'Ems.C06Src.ugrid_polygons_translated', 'Ems.C06Src.ugrid_polygons_src', 'Ems.C06Src.ugrid_polygon_src_at',
     'Ems.C06.cf1d_polygon_at', 'Ems.C06.cf1d_length', 'Ems.C06.midBounds_interior', 'Ems.C06.midBounds_outer',
     'Ems.C06.cf2d_polygon_at', 'Ems.C06.arakawa_polygon_at', 'Ems.C06.ugrid_polygon_at',
     'Ems.C06.missing_no_polygon', 'Ems.C06.storedCorners_spec', 'Ems.C06.ugrid_bad_node', 'Ems.C06.midBounds_length', 'Ems.C06.mask_iff', 'Ems.C06.invalid_dropped', 'Ems.C06.warned_iff',
@@ -23,6 +28,9 @@ REQUIRED = [
     'Ems.C06.cellsCover_iff', 'Ems.C06.cellsCover_polygon', 'Ems.C06.cf1d_box_cover',
     # the cached accessors of one convention object read in any order (Core/ConvReads.lean)
     'Ems.C06.reads_order_independent', 'Ems.C06.mask_first_iff',
+    # convention objects constructed one after the other, some configured through their constructor (Core/ConvOpen.lean, Props/C06Opens.lean)
+    'Ems.C06.class_names_unchanged', 'Ems.C06.open_history_independent', 'Ems.C06.default_open_after_configured',
+    'Ems.C06.configured_open_uses_given',
     # the numpy pipelines as the source has them (Gen/Pipelines.lean, translated by harness/pipelines.py on every run)
     'Ems.C06.pipelines_translated', 'Ems.C06.pipeline_eval_get',
     'Ems.C06.cf1d_pipeline_spec', 'Ems.C06.cf2d_pipeline_spec', 'Ems.C06.arakawa_pipeline_spec',
@@ -55,6 +63,14 @@ RULE = ('datasets of every convention from the recipe generator: CF 1-D axes asc
         'before anything that builds the polygons, then one of them a second time; polygons / mask / bounds / warning of that object go '
         'through the model of the cache (`reads <order> polys …`), the mask is compared with its own polygons and with the cells the '
         'generator made, a repeated read with the first one, and every accessor with its value on the object read polygons-first. '
+        'Configured objects (harness/gen/c06_extra6.py): histories of 3..5 datasets of one family (SHOC standard, CF 1-D, CF 2-D, SHOC simple) '
+        'opened one after the other in one process; some datasets carry a second coordinate set on the same dimensions (a recipe of its own, '
+        'variables without CF attributes), every history has an object configured for it through the constructor — ArakawaC / ShocStandard '
+        '`coordinate_names=` (a random subset of the four grids renamed, kinds as enum members or strings, pairs as tuples or lists), CFGrid1D / '
+        'CFGrid2D / ShocSimple `latitude=`/`longitude=` or `topology=` — and after it datasets opened without configuration (`Cls(dataset)` or '
+        '`dataset.ems`), with or without variables of the same extra names; a fifth of the objects are constructed in their place and read only '
+        'at the end. A configured object has to describe the cells of the coordinate set it was given, every other object the cells of its own '
+        'dataset\'s coordinates (polygons, mask, bounds, geometry; `opens cls= hist= use= // <set> … // <set> …` in the model). '
         'Non-trivial: dataset with a hole, an invalid cell, derived bounds, a non-quad face, overlapping cells, mixed storage types, '
         'or a non-default storage of coordinates; distinct by recipe. '
         'Pipelines: the source text of CFGrid1D._make_polygons, CFGrid2D._make_polygons, ArakawaC._make_polygons, the derived-bounds '
@@ -166,6 +182,14 @@ def examine(ctx, recipe: dict, items: list) -> None:
         pl = 'pipe ' + line[len('polys '):]
         items.append((pl, impl, {'recipe': recipe, 'op': pl}))
         ctx.count(f'pipeline:{pl.split()[1]}')
+    # --- B5 (ugridsrc): the program GENERATED FROM THE SOURCE of UGrid._make_polygons, run on the same ground truth with the
+    # masked table the generator wrote (rows padded with masked entries up to `maxn` columns; Core/UgridSrcProto.lean)
+    if conv == 'ugrid':
+        width = max([int(built.extra.get('maxn', 0))] + [len(f) for f in recipe['faces']])
+        pl = 'polys-src ' + line[len('polys '):] + f' width={width}'
+        items.append((pl, impl, {'recipe': recipe, 'op': pl}))
+        ctx.count('pipeline:ugrid-src')
+    # --- end B5
     if conv == 'cf1d' and c is not None:
         pipeline_extras(ctx, recipe, built, c, items)
     if conv in ('cf2d', 'shoc_simple') and built.extra.get('corners') is None and c is not None:
@@ -472,12 +496,153 @@ def derived_bounds_items(ctx, recipe: dict, built, c, items: list) -> None:
     ctx.count('pipeline:cf2dderived')
 
 
+# ---- extra6: convention objects configured through their constructor, and the datasets opened after them --------------
+# (generators: harness/gen/c06_extra6.py; model: lean/EmsModel/Core/ConvOpen.lean, theorems Props/C06Opens.lean)
+
+def _cells_of(b) -> tuple:
+    """ground truth of one coordinate set: (kept polygons, GEOS validity bits, bounds comparable)"""
+    raw = b.polys
+    vbits = S.geos_valid_bits(raw)
+    kept = [q if (q is not None and vbits[n] == '1') else None for n, q in enumerate(raw)]
+    any_invalid = any(q is not None and vbits[n] == '0' for n, q in enumerate(raw))
+    return kept, vbits, (not any_invalid and any(k is not None for k in kept))
+
+
+def _judge_cells(ctx, desc: dict, c, kept: list, with_bounds: bool, how: str) -> None:
+    """direct oracle: the object `c` describes exactly the cells `kept` (polygons, mask, bounds, overall geometry)"""
+    try:
+        with warnings.catch_warnings():
+            warnings.simplefilter('ignore')
+            polys = list(c.polygons)
+            mask = [bool(m) for m in c.mask]
+    except Exception as e:
+        ctx.oracle_fail('polygons-raise', desc, f'building polygons raised {type(e).__name__}: {e} {how}')
+        return
+    if len(polys) != len(kept):
+        ctx.oracle_fail('polygon-count', desc, f'{len(polys)} polygons for {len(kept)} cells {how}')
+        return
+    for n, (p, q) in enumerate(zip(polys, kept)):
+        if q is None and p is not None:
+            ctx.oracle_fail('polygon-for-missing-or-invalid-cell', {**desc, 'cell': n},
+                            f'cell {n} has polygon {p.wkt} but its coordinates are missing / self-intersecting {how}')
+            return
+        if q is not None and p is None:
+            ctx.oracle_fail('no-polygon-for-valid-cell', {**desc, 'cell': n},
+                            f'cell {n} has no polygon, expected {S.ring_str(q)} {how}')
+            return
+        if q is not None and S.impl_ring(p) != util.expected_ring(q):
+            ctx.oracle_fail('polygon-differs', {**desc, 'cell': n},
+                            f'cell {n}: polygon {S.ring_str(S.impl_ring(p))} expected {S.ring_str(q)} {how}')
+            return
+    if mask != [p is not None for p in polys]:
+        ctx.oracle_fail('mask-inconsistent', desc, f'mask does not say which cells have polygons {how}')
+        return
+    good = [shapely.Polygon([(float(x), float(y)) for x, y in q]) for q in kept if q is not None]
+    if good and with_bounds:
+        xs = [x for q in kept if q is not None for x, _ in q]
+        ys = [y for q in kept if q is not None for _, y in q]
+        exp = (min(xs), min(ys), max(xs), max(ys))
+        try:
+            got = tuple(Fraction(float(v)) for v in c.bounds)
+        except Exception as e:
+            got = f'ERR {type(e).__name__}: {e}'
+        if got != exp:
+            ctx.oracle_fail('bounds-differ', desc, f'bounds {got} expected {exp} {how}')
+            return
+    if good:
+        try:
+            geom = c.geometry
+            same = bool(shapely.is_valid(geom)) and bool(geom.equals(shapely.unary_union(good)))
+            why = ''
+        except Exception as e:
+            same, why = False, f': {type(e).__name__}: {e}'
+        if not same:
+            ctx.oracle_fail('geometry-differs', desc, f'geometry is not the union of the cell polygons{why} {how}')
+
+
+def play_history(ctx, hist: dict, items: list) -> None:
+    """Construct the convention objects of a history in order, in this process; judge every object (as it is made, or —
+    `read: late` — after everything else was constructed) against the cells of the coordinate set it has to use."""
+    steps = hist['steps']
+    tokens = ['c:' + X6.set_label(s['recipe'], 'alt') if s['open'] == 'configured' else 'd' for s in steps]
+    made = []
+
+    def construct(k: int, step: dict) -> tuple:
+        main, alt = X6.build_with_alt(step['recipe'])
+        truth = X6.truth_of(step, main, alt)
+        try:
+            with warnings.catch_warnings():
+                warnings.simplefilter('ignore')
+                c, err = X6.open_step(step, main), ''
+        except Exception as e:
+            c, err = None, f'{type(e).__name__}: {e}'
+        ctx.count(f"opens:{hist['family']}:{step['open']}" + (':late' if step.get('read') == 'late' else ''))
+        return (k, step, main, alt, truth, c, err)
+
+    def judge(entry) -> None:
+        k, step, main, alt, truth, c, err = entry
+        late = step.get('read') == 'late'
+        desc = {'history': hist, 'step': k}
+        kept, _, with_bounds = _cells_of(truth)
+        said = {'default': 'opened without configuration', 'accessor': 'opened through dataset.ems',
+                'configured': f"configured with {X6.alt_names(step['recipe']) if step['open'] == 'configured' else ''}"}[step['open']]
+        others = [f"{s['recipe']['conv']} {s['open']}" for j, s in enumerate(steps) if (j != k if late else j < k)]
+        how = (f"(object {k + 1} of {len(steps)} in this process, {said}"
+               f"{', read after all were constructed' if late else ''}; constructed {'around' if late else 'before'} it: "
+               f"{', '.join(others) or 'nothing'})")
+        # ---- correspondence: the model plays the other constructions, then this one, on this dataset's coordinate sets
+        sets = [(X6.set_label(step['recipe'], 'main'), main)]
+        if alt is not None and X6.set_label(step['recipe'], 'alt') != sets[0][0]:
+            sets.append((X6.set_label(step['recipe'], 'alt'), alt))
+        parts = []
+        for label, b in sets:
+            _, vb, wb = _cells_of(b)
+            parts.append(f"// {label} {S.polys_args(b)} valid={vb}" + ('' if wb else ' nob=1'))
+        base_cls = step['open'] == 'configured' and step.get('spelling', {}).get('cls') == 'ArakawaC'
+        hist_tokens = [t for j, t in enumerate(tokens) if (j != k if late else j < k)]
+        line = (f"opens cls={'-' if base_cls else sets[0][0]} hist={','.join(hist_tokens) or '-'} use={tokens[k]} "
+                + ' '.join(parts))
+        if c is None:
+            impl = 'ERR'
+        else:
+            try:
+                impl = S.impl_polys_out(c, with_bounds=with_bounds)
+            except Exception:
+                impl = 'ERR'
+        items.append((line, impl, {**desc, 'op': line}))
+        if step['open'] == 'configured' or any(s['open'] == 'configured' for s in steps[:k]):
+            ctx.nontrivial({'history': hist, 'step': k})
+        # ---- direct oracle
+        if c is None:
+            ctx.oracle_fail('polygons-raise', desc, f'constructing the convention object raised {err} {how}')
+            return
+        _judge_cells(ctx, desc, c, kept, with_bounds, how)
+
+    for k, step in enumerate(steps):
+        entry = construct(k, step)
+        if step.get('read') == 'late':
+            made.append(entry)      # held; looked at after everything else was constructed
+        else:
+            judge(entry)
+    for entry in made:
+        judge(entry)
+
+
+def configured_histories(ctx, items: list) -> None:
+    rng = X6.own_rng(ctx.seed, ctx.searching)       # a stream of its own: the recipes above are what they were
+    for k in range(ctx.budget(20, 120)):
+        hist = X6.random_history(rng, X6.FAMILIES[k % len(X6.FAMILIES)], ctx.tier)
+        ctx.guarded(lambda: play_history(ctx, hist, items), {'history': hist})
+# ---- end extra6 --------------------------------------------------------------------------------------------------------
+
+
 def run(ctx) -> None:
     items: list = []
     n = ctx.budget(160, 900)
     for k in range(n):
         recipe = make_recipe(ctx, k)
         ctx.guarded(lambda: examine(ctx, recipe, items), {'recipe': recipe})
+    configured_histories(ctx, items)        # extra6 (last: what it constructs must not colour the cases above)
     if ctx.searching and ctx.driver is None:
         ctx.evaluated(len(items))
         return
@@ -488,7 +653,10 @@ def run_one(ctx, inp: dict) -> dict:
     items: list = []
     sub = type(ctx)(ctx.prop, ctx.tier, ctx.seed)
     sub.known = []
-    examine(sub, inp['recipe'], items)
+    if 'history' in inp:        # extra6
+        play_history(sub, inp['history'], items)
+    else:
+        examine(sub, inp['recipe'], items)
     out = {}
     if inp.get('op'):
         for line, impl, _ in items:
